@@ -12,8 +12,8 @@ once references have been resolved: `Signal`, `Slice`, `Concat`.
 * `listSlice`, `resolveSlice`, `resolveConcat`, `resolveSliceable` mirror
   `hdl21/elab/passes/slices.py:_list_slice/_resolve_slice/_resolve_concat/_resolve_sliceable`.
   The Python recursion creates fresh `Slice` objects on the same parent, so it is not
-  structural; the model takes a fuel argument (the driver supplies a bound that the
-  totality theorem shows sufficient).
+  structural; the model takes a fuel argument (the driver supplies a bound; that it suffices is
+  checked against the implementation on every run, not proved).
 -/
 import Hdl21Model.Slice
 namespace Hdl21
